@@ -19,12 +19,15 @@ META = {
         "did not swallow it, and it is that event; injected events are taken at most once and appended after the simulator's; the "
         "response is cached exactly once under the request's ack and the body written back is made from the cached payload; nothing is "
         "merged for non-200 responses, for flows the proxy injected itself or when an addon handled the response. "
+        "MITMProxyEventManager._handle_request (quick: EventQueueGet branch; thorough: every branch): the replay cache is consulted at most "
+        "once, under the ack the request carries; a hit is answered with a synthetic 200 made from exactly the cached payload, a miss "
+        "makes no synthetic response. "
         "B (bounded): whole poll histories against a reference queue (delivery exactly once and in order, undef when emptied, replay of a "
         "repeated poll, non-200 responses, region registration from events)."),
     "trusted_base": [
         "events are treated parametrically (only appended / moved): identity abstraction to integers",
         "the wake-up PlacesQuery sent by inject_event goes through Circuit.send (C05); weakref proxy truthiness is external",
-        "_handle_eq_event and the request-side replay (_handle_request): bounded tier only; in _handle_response the LLSD values, lists and "
+        "_handle_eq_event (region registration from events): bounded tier only; in _handle_request / _handle_response the LLSD values, lists and "
         "weak references are unmodelled (lookups are pure reads) - only the control of the merge is proved",
     ],
 }
@@ -62,6 +65,8 @@ def register(reg):
                           ensures=["len(self._queued_events) == 0", "is_none(self._last_ack)", "is_none(self._last_payload)"],
                           frame=["_queued_events", "_last_ack", "_last_payload"], **common))
     c17b_contracts.register_p2(reg, PID)
+    from contracts import c17c_contracts
+    c17c_contracts.register_p3(reg, PID)
 
 
 BOUNDED = [http_native.bounded_eq]
